@@ -79,6 +79,18 @@ impl HtmlBodyVisitor {
     }
 }
 
+/// Under the Kani model checker the CSS selector engine (scraper/html5ever) is replaced by a
+/// verdict chosen by the proof harness: Kani 0.68 cannot compile that engine, and it is outside
+/// every claim.
+#[cfg(kani)]
+pub static VERIF_SELECTOR_VERDICT: std::sync::atomic::AtomicBool = std::sync::atomic::AtomicBool::new(false);
+
+#[cfg(kani)]
+pub fn evaluate(_data: &str, _expression: &str) -> bool {
+    VERIF_SELECTOR_VERDICT.load(std::sync::atomic::Ordering::Relaxed)
+}
+
+#[cfg(not(kani))]
 pub fn evaluate(data: &str, expression: &str) -> bool {
     let selector = match scraper::Selector::parse(expression) {
         Ok(selector) => selector,
